@@ -210,7 +210,7 @@ def run_correspondence(cfg, tier, seed, replay_ops=None, harness_args=None):
     tmp = tempfile.mkdtemp(prefix="verif-%s-" % cfg["prop"])
     try:
         ops_path = os.path.join(tmp, "ops.tsv")
-        env = dict(GOENV, VERIF_SCRATCH=tmp)
+        env = dict(GOENV, VERIF_SCRATCH=tmp, **cfg.get("harness_env", {}))
         with open(ops_path, "w") as fh:
             if replay_ops is None:
                 corpus = sorted(glob.glob(os.path.join(VERIF, "corpus", cfg["prop"], "*.ops")))
@@ -340,6 +340,9 @@ def standard_check(cfg, tier, seed, replay=None):
     floor = cfg.get("min_ops", {}).get(tier, 1)
     if replay is None and len(lines) < floor:
         raise RuntimeError("broken harness: only %d ops generated (floor %d)" % (len(lines), floor))
+    classify = cfg.get("classify")  # optional: re-judge a difference for THIS property
+    if classify:
+        diffs = [(i, op, impl, model, classify(op, impl, model, v)) for (i, op, impl, model, v) in diffs]
     post = cfg.get("post")  # optional extra property-level analysis hook
     if post:
         post(R, lines, diffs)
